@@ -522,6 +522,14 @@ def int_summaries(P):
         st = env.get('$state'); fits = ULT(x, BitVecVal(1 << 63, 64))
         return [(fits, Enum('Ok', (x,)), st), (Not(fits), Enum('Err', (Opaque('TryFromIntError'),)), st)]
     P[r'<i64 as TryFrom<u64>>::try_from'] = i64_from_u64
+    def op_assign(f):
+        def g(se, env, pc, a, b):
+            bv_ = b
+            while isinstance(bv_, Ref): bv_ = se.deref(env, bv_)
+            se.store(env, a, f(se.deref(env, a), bv_)); return one(env, ())
+        return g
+    P[r'<u(?:8|16|32|64|size) as AddAssign<&?u(?:8|16|32|64|size)>>::add_assign'] = op_assign(lambda x, y: x + y)
+    P[r'<u(?:8|16|32|64|size) as SubAssign<&?u(?:8|16|32|64|size)>>::sub_assign'] = op_assign(lambda x, y: x - y)
     P[U + 'abs_diff'] = two(lambda a, b: If(ULT(a, b), b - a, a - b))
     P[U + 'min'] = two(lambda a, b: If(ULT(b, a), b, a)); P[U + 'max'] = two(lambda a, b: If(ULT(a, b), b, a))
     P[r'<u(?:8|16|32|64|size) as Ord>::(min|max)'] = None
